@@ -280,6 +280,32 @@ def r4(chk, prog):
                 detail = 'rename( dest generation n%+d, src generation n%+d)' % (gen.get(d) or 0, gen.get(s) or 0)
             chk.check(ok, 'R4', h.name, 'generations are shifted n-1 -> n from the oldest downwards (nothing is '
                       'overwritten before it was moved)', h.loc(loop), detail)
+            # the range of generations that is shifted depends on the configuration only: older generations can
+            # exist from an earlier run, so the start of the loop must not depend on what THIS object has done so
+            # far (fields that members other than constructors assign), and the loop runs down to generation 1
+            mutable = set()
+            for m in prog.functions:
+                if (m.cls == cls or (m.classq or '').endswith('PolicyBase')) and not m.d.get('ctor') and m.body:
+                    for x in m.walk():
+                        if x.get('k') in ('BinaryOperator', 'CompoundAssignOperator', 'UnaryOperator') and \
+                                ((x.get('op') or '').endswith('=') and x.get('op') not in ('==', '!=', '<=', '>=')
+                                 or x.get('op') in ('++', '--')):
+                            fn = field_name(children(x)[0])
+                            if fn:
+                                mutable.add(fn)
+            init = kids[0] if kids else None
+            used = {x['ref']['name'] for x in walk(init) if x.get('k') == 'MemberExpr' and
+                    x.get('ref', {}).get('dk') == 'Field'} if isinstance(init, dict) else set()
+            cond = kids[2] if len(kids) > 2 else None
+            c0 = strip_all_casts(cond) if isinstance(cond, dict) else {}
+            to_one = c0.get('k') == 'BinaryOperator' and (
+                (c0.get('op') == '>' and strip_all_casts(children(c0)[1]).get('val', children(c0)[1].get('cv')) == 0) or
+                (c0.get('op') == '>=' and strip_all_casts(children(c0)[1]).get('val', children(c0)[1].get('cv')) == 1))
+            chk.check(bool(used) and not (used & mutable) and to_one, 'R4', h.name, 'all generations of the configured '
+                      'limit are shifted, down to generation 1, whatever this object has written so far (files of an '
+                      'earlier run are rolled too)', h.loc(loop),
+                      'loop start uses %s; state fields: %s; runs down to generation 1: %s' % (
+                          sorted(used), sorted(used & mutable), to_one))
     return n
 
 
